@@ -674,6 +674,73 @@ std::vector<Workload> CuratedWorkloads() {
     w.legacy = k == 2 ? 3 : 2;
     out.push_back(w);
   }
+  // Several attribute decoders with their own connectivity data (speed < 6), a
+  // seam-less per-vertex attribute that does not use a mesh prediction scheme
+  // next to an attribute with a seam on every edge (three points per face):
+  // the ownership fields of the attribute decoders (att_data_id, decoder type,
+  // traversal method) can then be exchanged without the stream failing later.
+  for (int k = 0; k < 3; ++k) {
+    Workload w;
+    w.kind = 0;
+    w.topo = 9;
+    w.n = 12;
+    w.gseed = ++gs;
+    AttDesc pos;
+    w.atts.push_back(pos);
+    AttDesc t;
+    t.type = draco::GeometryAttribute::TEX_COORD;
+    t.nc = 2;
+    t.mode = 2;
+    AttDesc g;
+    g.type = draco::GeometryAttribute::GENERIC;
+    g.dt = draco::DT_INT32;
+    g.nc = 1;
+    g.mode = 0;
+    if (k == 2) {
+      w.atts.push_back(g);
+      w.atts.push_back(t);
+    } else {
+      w.atts.push_back(t);
+      w.atts.push_back(g);
+    }
+    w.method = 1;
+    w.eb_method = k == 1 ? 2 : 0;
+    w.qb[0] = 11;
+    w.qb[3] = 10;
+    w.pred[4] = k == 1 ? -2 : 0;
+    w.espeed = w.dspeed = 3 + k;
+    out.push_back(w);
+  }
+  // Meshes with integer positions (no quantization transform data between the
+  // position descriptor and the other attributes): Edgebreaker with geometric
+  // normal prediction, Edgebreaker with seamed tex coords, sequential.
+  for (int k = 0; k < 4; ++k) {
+    Workload w;
+    w.kind = 0;
+    w.topo = k == 1 ? 3 : 0;
+    // k == 3: a regular grid; its residuals are all equal, so the positions go
+    // through the raw symbol scheme, whose rANS block is length-prefixed: a
+    // wrong value count there leaves the rest of the stream aligned.
+    w.n = k == 3 ? 40 : 12;
+    w.jit = k == 3 ? 0 : 1;
+    w.gseed = ++gs;
+    AttDesc pos;
+    pos.dt = k == 1 ? draco::DT_INT16 : draco::DT_INT32;
+    w.atts.push_back(pos);
+    AttDesc a;
+    a.type = k == 1 ? draco::GeometryAttribute::TEX_COORD
+                    : draco::GeometryAttribute::NORMAL;
+    a.nc = k == 1 ? 2 : 3;
+    a.mode = k == 1 ? 1 : 0;
+    w.atts.push_back(a);
+    w.method = k == 2 ? 0 : 1;
+    w.qb[1] = 8;
+    w.qb[3] = 10;
+    w.pred[1] = 6;
+    w.pred[3] = 5;
+    w.espeed = w.dspeed = (k == 0 || k == 3) ? 3 : 1;
+    out.push_back(w);
+  }
   // Deprecated predictive Edgebreaker traversal coding (writer stub
   // legacy_eb.cc): open grid with per-vertex attributes, torus (split events),
   // several components with a seamed attribute.
